@@ -207,6 +207,21 @@ func loadDeb(archive *Ar) (*Deb, error) {
 func loadDeb2(archive map[string]*ArEntry) (*Deb, error) {
 	ret := Deb{ArContent: archive}
 
+	/* The members are looked up by prefix in a map, so with two candidates
+	 * the one that gets loaded (and the one CheckDebsig verifies) would
+	 * depend on map iteration order. */
+	for _, prefix := range []string{"control.", "data."} {
+		count := 0
+		for name := range archive {
+			if strings.HasPrefix(name, prefix) {
+				count++
+			}
+		}
+		if count > 1 {
+			return nil, fmt.Errorf("More than one .deb member '%s*'", prefix)
+		}
+	}
+
 	if err := loadDeb2Control(archive, &ret); err != nil {
 		return nil, err
 	}
